@@ -104,7 +104,8 @@ def match_finding(findings, prop, obligation, detail):
 # evidence
 
 def write_evidence(prop, tier, seed, level, coverage, assumptions, wall_s, violations, extra=None):
-    os.makedirs(os.path.join(VERIF, "evidence"), exist_ok=True)
+    outbase = os.environ.get("VERIF_OUT", VERIF)
+    os.makedirs(os.path.join(outbase, "evidence"), exist_ok=True)
     ev = {
         "property_id": prop,
         "tier": tier,
@@ -117,7 +118,7 @@ def write_evidence(prop, tier, seed, level, coverage, assumptions, wall_s, viola
     }
     if extra:
         ev.update(extra)
-    path = os.path.join(VERIF, "evidence", "%s.json" % prop)
+    path = os.path.join(outbase, "evidence", "%s.json" % prop)
     tmp = path + ".tmp"
     with open(tmp, "w") as f:
         json.dump(ev, f, indent=1, sort_keys=False)
@@ -127,9 +128,10 @@ def write_evidence(prop, tier, seed, level, coverage, assumptions, wall_s, viola
 
 
 def write_replay(prop, obligation, payload):
-    os.makedirs(os.path.join(VERIF, "replays"), exist_ok=True)
+    outbase = os.environ.get("VERIF_OUT", VERIF)
+    os.makedirs(os.path.join(outbase, "replays"), exist_ok=True)
     safe = re.sub(r"[^A-Za-z0-9_.-]+", "_", obligation)[:150]
-    path = os.path.join(VERIF, "replays", "%s-%s.json" % (prop, safe))
+    path = os.path.join(outbase, "replays", "%s-%s.json" % (prop, safe))
     with open(path, "w") as f:
         json.dump(payload, f, indent=1)
         f.write("\n")
